@@ -642,6 +642,12 @@ def c09(tr, cx):
     if spec['ccm']:
         for (nid, prev), counts in cc.items():
             freq_test(('class_change', nid, prev), counts, dict(spec['ccm'][nid - 1][prev]))
+            n_ = sum(counts.values())
+            for j, c_ in enumerate(sorted(spec['classes'])[:3]):
+                p_ = spec['ccm'][nid - 1][prev][c_]
+                if 0 < p_ < 1:
+                    tr.counters['C09.agg.CS%d' % j] = tr.counters.get('C09.agg.CS%d' % j, 0.0) + counts.get(c_, 0) - n_ * p_
+                    tr.counters['C09.agg.CV%d' % j] = tr.counters.get('C09.agg.CV%d' % j, 0.0) + n_ * p_ * (1 - p_)
     for (cls, nid), seq in cyc.items():
         cy = spec['routing'][cls]['routers'][nid - 1]['cycle']
         L = len(cy)
@@ -1083,6 +1089,9 @@ def c13(tr, cx):
                 if e[0] == 'exit': exits[E[1]].add(e[2])
     nb = 0; nq = 0
     zs = [(p, cid in bk) for (t, nid, c, cid, n, truen, p) in tr.logs.blog if 0.0 < p < 1.0 and (cx['t_cut'] is None or t < cx['t_cut'])]
+    if zs:
+        tr.counters['C13.agg.S'] = tr.counters.get('C13.agg.S', 0.0) + sum((1 if b else 0) - p for p, b in zs)
+        tr.counters['C13.agg.V'] = tr.counters.get('C13.agg.V', 0.0) + sum(p * (1 - p) for p, b in zs)
     if len(zs) >= 30:
         mean = sum(p for p, b in zs); var = sum(p * (1 - p) for p, b in zs); got = sum(1 for p, b in zs if b)
         tr.count('C13.baulk_frequency_tests')
